@@ -17,7 +17,6 @@ package circuitbreaker
 import (
 	"math"
 	"reflect"
-	"sync"
 	"sync/atomic"
 
 	"github.com/alibaba/sentinel-golang/core/base"
@@ -179,40 +178,6 @@ type circuitBreakerBase struct {
 	curProbeNumber uint64
 	// state is the state machine of circuit breaker
 	state *State
-	// loadedId is the Id of the rule this breaker currently stands for, if it is not rule.Id (renamed).
-	// Both are guarded by loadedIdMux.
-	loadedId string
-	renamed  bool
-}
-
-var loadedIdMux sync.Mutex
-
-// loadedRuleId returns the Id of the rule the breaker currently stands for. It differs from
-// BoundRule().Id after a load that gave the rule another Id and changed nothing else: the breaker, and
-// the rule object in it, stay in place then.
-func (b *circuitBreakerBase) loadedRuleId() string {
-	loadedIdMux.Lock()
-	defer loadedIdMux.Unlock()
-	if b.renamed {
-		return b.loadedId
-	}
-	return b.rule.Id
-}
-
-func (b *circuitBreakerBase) setLoadedRuleId(id string) {
-	loadedIdMux.Lock()
-	defer loadedIdMux.Unlock()
-	b.renamed = id != b.rule.Id
-	b.loadedId = id
-}
-
-// loadedIdOf is the Id a breaker of any type goes by: breakers that are not built on circuitBreakerBase
-// (custom strategies) go by their bound rule's.
-func loadedIdOf(cb CircuitBreaker) string {
-	if b, ok := cb.(interface{ loadedRuleId() string }); ok {
-		return b.loadedRuleId()
-	}
-	return cb.BoundRule().Id
 }
 
 func (b *circuitBreakerBase) BoundRule() *Rule {
